@@ -307,6 +307,15 @@ def model_str(v):
     return str(v)
 
 
+def soft(v):
+    """String form that keeps a safe (markupsafe.Markup) string safe."""
+    if is_undef(v):
+        return ""
+    if hasattr(v, "__html__"):
+        return v
+    return str(v)
+
+
 class Interp:
     def __init__(self, templates, globals=None, filters=None, tests=None):
         self.templates = templates  # name -> body
@@ -329,8 +338,17 @@ class Interp:
         self.steps = 0
         self.max_steps = 200000
 
+    autoescape = False
+
     def wrap_markup(self, s):
         return s
+
+    def to_output(self, v):
+        if not self.autoescape:
+            return model_str(v)
+        from markupsafe import escape
+
+        return str(escape(soft(v)))
 
     # ------------------------------------------------------------ render
     def render(self, name, data):
@@ -389,7 +407,7 @@ class Interp:
             if k == "text":
                 out.append(s[1])
             elif k == "out":
-                out.append(model_str(self.ev(s[1], scope, st)))
+                out.append(self.to_output(self.ev(s[1], scope, st)))
             elif k == "if":
                 done = False
                 for c, b in s[1]:
@@ -697,6 +715,15 @@ class Interp:
             b = self.ev(e[3], scope, st)
             op = e[1]
             if op == "~":
+                if self.autoescape:
+                    # documented HTML-escaping rule: once a safe string takes part,
+                    # the result is safe and the other operands are escaped
+                    parts = [soft(a), soft(b)]
+                    if any(hasattr(x, "__html__") for x in parts):
+                        from markupsafe import Markup
+
+                        return Markup("").join(parts)
+                    return "".join(parts)
                 return model_str(a) + model_str(b)
             if is_undef(a):
                 undef_error(a)
